@@ -35,6 +35,7 @@ func checkC14(c *Check) {
 	c.Rule("R3h", "a credentials file is re-read whenever the file on disk is not the one loaded: table.file's reload stamp is the modification time of the file it read (C15.R12)", 1)
 	importRules(c, "C15", func(s *Check) { c15FileStampIsMTime(s, "R12") }, map[string]bool{"R12": true}, "R3h")
 	c14RegexpNoNewGroup(c, "R5b")
+	c14FullMatchAnchorsWhole(c, "R5c")
 	c14Providers(c)
 	c14Mapping(c)
 	c14Gate(c)
